@@ -313,6 +313,9 @@ func (c *Case) Run(o RunOpts) *RunResult {
 	cmd.Stdout = &out
 	cmd.Stderr = &out
 	cmd.SysProcAttr = &syscall.SysProcAttr{Setsid: true}
+	// a leftover job process (own session, survives the kill of mrp's process
+	// group) may keep the output pipe open: do not wait for it
+	cmd.WaitDelay = 3 * time.Second
 	res := &RunResult{StartT: Mono()}
 	start := time.Now()
 	if err := cmd.Start(); err != nil {
